@@ -13,7 +13,7 @@
 From GV.Model Require Import Ast Spec.
 From GV.Model Require Import Lex ValueParse QueryParse OpParse ClauseParse CnfParse FilterParse ClauseFParse CnfFParse LetParse CallParse FullParse.
 From GV.Proofs Require Import LexProps ValueParseProps ValueSpellProps ValueSpellExample.
-From GV.Proofs Require Import QueryParseProps QuerySpellProps QuerySpellExample ThisProps OpParseProps ClauseParseProps ClauseSpellProps ClauseSpellExample CnfParseProps OpSoundProps ClauseFuelProps CnfSpellProps CnfSpellExample FilterParseProps ClauseFProps CnfFProps LetParseProps CallParseProps FuelMonoProps CallExtendProps FullParseProps FullLinkProps.
+From GV.Proofs Require Import QueryParseProps QuerySpellProps QuerySpellExample ThisProps OpParseProps ClauseParseProps ClauseSpellProps ClauseSpellExample CnfParseProps OpSoundProps ClauseFuelProps CnfSpellProps CnfSpellExample FilterParseProps ClauseFProps CnfFProps LetParseProps CallParseProps FuelMonoProps CallExtendProps FullParseProps FullLinkProps FullCondsProps.
 
 Theorem C14_keyword_tables_are_the_documented_ones :
   set_eqb kw_in_keyword ["in"; "IN"] = true /\ set_eqb kw_keys ["keys"; "KEYS"] = true /\
@@ -411,3 +411,22 @@ Theorem C14_whole_grammar_reads_every_query_spelling : forall rv c rest, qwf c -
   xaccess rv (S (S (access_fuel (qrender c +++ rest)))) (qrender c +++ rest) = POk (query_tree (qdenote c)) rest.
 Proof. exact whole_grammar_reads_every_query_spelling. Qed.
 Print Assumptions C14_whole_grammar_reads_every_query_spelling.
+
+(* the conditions of a when: read by the whole-grammar parser to the tree of the conditions the proved layer reads; hence every
+   spelling of conditions, behind when / WHEN and any layout *)
+Theorem C14_whole_grammar_reads_conditions_alike : forall rv kw w0 w1 X l r N,
+  In kw kw_when -> layout w0 -> layout w1 -> w1 <> EmptyString ->
+  single_clauses_top rv X = POk l r -> (String.length X + 6 <= N)%nat ->
+  xwhen_conds rv (S N) (w0 +++ (kw +++ (w1 +++ X))) = POk (T "cnf" (map tor (map (map when_tree) l))) r.
+Proof. exact xwhen_conds_reads_conditions. Qed.
+Print Assumptions C14_whole_grammar_reads_conditions_alike.
+
+Theorem C14_whole_grammar_reads_every_conditions_spelling : forall rv kw w0 w1 l0 ls tail N,
+  In kw kw_when -> layout w0 -> layout w1 -> w1 <> EmptyString -> lines_ok rv (l0 :: ls) tail ->
+  or_join (after (final_alt ls (last_alt l0)) tail) = None ->
+  (forall m, when_elem rv m (skip_ws_comments (after (final_alt ls (last_alt l0)) tail)) = PErr) ->
+  (String.length (render_conds rv (l0 :: ls) +++ tail) + 6 <= N)%nat ->
+  xwhen_conds rv (S N) (w0 +++ (kw +++ (w1 +++ (render_conds rv (l0 :: ls) +++ tail)))) =
+  POk (T "cnf" (map tor (map (map when_tree) (map denote_line (l0 :: ls))))) (after (final_alt ls (last_alt l0)) tail).
+Proof. exact whole_grammar_reads_every_conditions_spelling. Qed.
+Print Assumptions C14_whole_grammar_reads_every_conditions_spelling.
